@@ -2,7 +2,7 @@ PROP = dict(
     harness="c03", level="exploration",
     quick=dict(cases=160000, max_size=60, workers=16),
     thorough=dict(cases=2400000, max_size=150, workers=16, timeout=7200),
-    rule=("rapidcheck programs on x86-64 / x86-32 / AArch64 Assemblers: label creation, forward/backward references (jmp, jmp short, jcc, jcc short, call, "
+    rule=("Session 2: xbegin rel32 (C7 F8 rel32, the only relative branch with a ModRM byte) is a site kind of its own. rapidcheck programs on x86-64 / x86-32 / AArch64 Assemblers: label creation, forward/backward references (jmp, jmp short, jcc, jcc short, call, "
           "jecxz, loop, RIP-relative / absolute lea and memory operands with trailing imm8/imm32; b, bl, b.cond, cbz, tbz, adr, ldr-literal), embed_label, "
           "embed_label_delta 1/2/4/8, binds before and after, align, paddings chosen around the rel8 / 32 KiB / 1 MiB limits, 1-3 sections, labels "
           "optionally left unbound; then flatten, resolve_cross_section_fixups, relocate_to_base, copy_flattened_data. A layout model owned by the harness "
